@@ -170,6 +170,149 @@ class Block:
 
 
 class Function:
+    PURE_CALLS = ("memmove", "memcpy", "memset", "strlen", "strnlen", "__builtin_memmove", "__builtin_memcpy", "__builtin_memset",
+                  "__builtin___memmove_chk", "__builtin___memcpy_chk", "__builtin___memset_chk", "__builtin_strlen")
+
+    def _propagate_block_copies(self):
+        """`remaining = position - consumed; memmove(d, s, remaining); position = remaining;` - a local that is assigned exactly
+        once in the function from a side-effect-free expression is, within the same basic block and as long as no operand
+        of that expression is stored to, just a name for the expression: its uses are replaced by the expression's node
+        (and by its text in the enclosing nodes' source strings), so that rules see the expression itself."""
+        import re
+        counts = {}
+        for n in self.nodes.values():
+            if n.k == "DeclStmt":
+                for d in n.get("decls", []):
+                    counts[d["name"]] = counts.get(d["name"], 0) + (1 if "init" in d else 0)
+            elif n.k in ("BinaryOperator", "CompoundAssignOperator", "UnaryOperator"):
+                op = n.get("op", "")
+                if (n.k != "UnaryOperator" and op.endswith("=") and op not in ("==", "!=", "<=", ">=")) or \
+                        (n.k == "UnaryOperator" and op in ("++", "--", "&")):
+                    t = n.child(0) if n.ch else None
+                    while t is not None and t.k == "ParenExpr" and t.ch:
+                        t = t.child(0)
+                    if t is not None and t.k == "DeclRefExpr" and t.get("decl", {}).get("kind") == "local":
+                        counts[t["decl"]["name"]] = counts.get(t["decl"]["name"], 0) + (2 if op == "&" else 1)
+
+        def pure(e):
+            for x in e.walk():
+                if x.k == "CallExpr":
+                    return False
+                if x.k in ("BinaryOperator", "CompoundAssignOperator") and x.get("op", "").endswith("=") and x.get("op") not in ("==", "!=", "<=", ">="):
+                    return False
+                if x.k == "UnaryOperator" and x.get("op") in ("++", "--"):
+                    return False
+            return True
+
+        for b in self.blocks.values():
+            live = {}          # local name -> (rhs root node, operand paths, text)
+            for e in b.elems:
+                # kills first (the element's own effects come after its operands were read)
+                if e.k == "CallExpr":
+                    if live:
+                        self._subst_uses(e, live)
+                    if (e.get("callee") or "") not in self.PURE_CALLS:
+                        live = {}
+                    continue
+                t = None
+                if e.k in ("BinaryOperator", "CompoundAssignOperator") and e.get("op", "").endswith("=") and e.get("op") not in ("==", "!=", "<=", ">="):
+                    t = e.child(0)
+                elif e.k == "UnaryOperator" and e.get("op") in ("++", "--"):
+                    t = e.child(0)
+                if t is None:
+                    continue
+                while t.k == "ParenExpr" and t.ch:
+                    t = t.child(0)
+                tp = t.get("path")
+                # uses inside this element were bound to the copies that were live before it
+                if live:
+                    self._subst_uses(e, live)
+                if tp:
+                    live = {k_: v for k_, v in live.items() if tp not in v[1] and k_ != tp}
+                if e.k == "BinaryOperator" and e.get("op") == "=" and t.k == "DeclRefExpr" and \
+                        t.get("decl", {}).get("kind") == "local" and counts.get(t["decl"]["name"]) == 1 and \
+                        t.get("tk") in ("int", "enum", "bool"):
+                    rhs = e.child(1)
+                    if pure(rhs) and rhs.strip_all_casts().k in ("BinaryOperator",):
+                        ops = {x.get("path") for x in rhs.walk() if x.k in ("DeclRefExpr", "MemberExpr") and x.get("path")}
+                        if t["decl"]["name"] not in ops:
+                            live[t["decl"]["name"]] = (rhs, ops, rhs.src)
+            # uses in the block's terminator condition are left alone (conditions are matched structurally elsewhere)
+        # calls: arguments are separate elements evaluated before the call element; substitute inside call nodes too
+        return
+
+    def _subst_uses(self, root, live):
+        import re
+        is_store = root.k in ("BinaryOperator", "CompoundAssignOperator") and root.get("op", "").endswith("=") and \
+            root.get("op") not in ("==", "!=", "<=", ">=")
+        changed = set()
+        for x in list(root.walk()):
+            chs = x.get("ch")
+            if not chs:
+                continue
+            for i, cid in enumerate(chs):
+                c = self.nodes.get(cid) if isinstance(cid, int) else None
+                if c is None or (x is root and is_store and i == 0):
+                    continue
+                y = c
+                hops = 0
+                while y.k in ("ImplicitCastExpr", "ParenExpr") and y.ch and hops < 4:
+                    y = y.child(0)
+                    hops += 1
+                if y.k == "DeclRefExpr" and y.get("decl", {}).get("name") in live:
+                    chs[i] = live[y["decl"]["name"]][0].id
+                    changed.add(y["decl"]["name"])
+        if changed:
+            for x in root.walk():
+                src = x.get("src")
+                if not src:
+                    continue
+                for name in changed:
+                    text = live[name][2]
+                    rx = re.compile(r"(?<![\w.>])%s(?![\w])" % re.escape(name))
+                    if src.strip() == name:
+                        src = text
+                    elif rx.search(src):
+                        src = rx.sub(lambda m, t_=text: "(%s)" % t_, src)
+                x["src"] = src
+
+    def _canonical_compound(self):
+        """`x = x - e` / `x = x + e` / `x = e + x` are rewritten into the compound form `x -= e` / `x += e` (same effect), so
+        that rules state updates in one spelling"""
+        for n in self.nodes.values():
+            if n.k != "BinaryOperator" or n.get("op") != "=" or not n.ch or len(n.ch) < 2:
+                continue
+            t = n.child(0)
+            while t.k == "ParenExpr" and t.ch:
+                t = t.child(0)
+            tp = t.get("path")
+            if not tp or t.k not in ("DeclRefExpr", "MemberExpr"):
+                continue
+            r = n.child(1)
+            while r.k in ("ImplicitCastExpr", "ParenExpr") and r.ch:
+                r = r.child(0)
+            if r.k != "BinaryOperator" or r.get("op") not in ("+", "-"):
+                continue
+            a, b_ = r.child(0), r.child(1)
+            sa_, sb_ = a, b_
+            while sa_.k in ("ImplicitCastExpr", "ParenExpr") and sa_.ch:
+                sa_ = sa_.child(0)
+            while sb_.k in ("ImplicitCastExpr", "ParenExpr") and sb_.ch:
+                sb_ = sb_.child(0)
+            other = None
+            if sa_.get("path") == tp and sa_.k == t.k:
+                other = b_
+            elif r["op"] == "+" and sb_.get("path") == tp and sb_.k == t.k:
+                other = a
+            if other is None or any(x.get("path") == tp for x in other.walk()):
+                continue
+            n["op0"] = "="
+            n["op"] = r["op"] + "="
+            n["k"] = "CompoundAssignOperator"
+            n["ch"] = [n["ch"][0], other.id]
+            n["src0"] = n.get("src")
+            n["src"] = "%s %s %s" % (t.src, n["op"], other.src)
+
     def _resolve_aliases(self):
         """A local pointer that is initialised once with the address of a sub-object of a parameter (`buf = &context->buffer`)
         and never assigned again is a pure name for that object: every access path through it is rewritten to the full
@@ -328,6 +471,8 @@ class Function:
                 if t is not None:
                     self.blocks[t].preds.append(b)
         self._resolve_aliases()
+        self._propagate_block_copies()
+        self._canonical_compound()
         # element -> (block, index)
         self.where = {}
         for b in self.blocks.values():
